@@ -2,7 +2,7 @@
    Model: App.v (command_handler, cmdline_interface::run, main) on top of the protocol model; the local file system is
    a finite map. PARTIAL: symlinks, permissions, signals and terminal handling are not modelled; that the real
    process exits with status 0 and touches no other file is observed by the correspondence on the real binary. *)
-From LibFtp Require Import Bytes Decimal Reply DataConn Client Client_Proofs Cmdline AppStrings Typed App App_Proofs.
+From LibFtp Require Import Bytes Decimal Reply Endpoint DataConn Client Client_Proofs Login_Proofs Transfer_Proofs Transfer_More Cmdline AppStrings Typed App App_Proofs.
 Local Open Scope N_scope.
 
 (* for every script of input lines, every local file system and every script of the peer: the run ends with the
@@ -48,6 +48,24 @@ Theorem C20_error_drops_connection : forall a c a',
   lib a c = (OThrow, a') -> w_open (a_w a') = false /\ w_ssl (a_w a') = false.
 Proof. exact error_drops_connection. Qed.
 Print Assumptions C20_error_drops_connection.
+
+(* get is the only verb that touches the local file system: every other command, with any arguments and against any
+   server behaviour, leaves every local file exactly as it was *)
+Theorem C20_only_get_touches_files : forall a c args, c <> C_get -> a_fs (snd (handle a c args)) = a_fs a.
+Proof. exact only_get_touches_files. Qed.
+Print Assumptions C20_only_get_touches_files.
+
+(* after a library error the following open starts a clean session: it reads exactly the new server's greeting and is in
+   step with that server's script, plain, nothing buffered, whatever the failed call had left behind *)
+Theorem C20_open_after_error_is_clean : forall a c a' h p s srest g,
+  (w_tls_up (snd (step (a_w a) c)) = true -> w_ssl (snd (step (a_w a) c)) = true) ->
+  lib a c = (OThrow, a') ->
+  w_script (a_w a') = s :: srest -> s_reachable s = true -> c_tls (w_cfg (a_w a')) = false ->
+  r_now (s_greeting s) = [RReply g] -> r_close_after (s_greeting s) = false -> code g <> 421 -> code g <> 120 ->
+  exists a'', lib a' (AConnect h p None) = (OReturn (RvReplies [g]), a'') /\
+    insync (a_w a'') (s_reactions s) /\ w_ssl (a_w a'') = false /\ a_fs a'' = a_fs a'.
+Proof. exact open_after_error_is_clean. Qed.
+Print Assumptions C20_open_after_error_is_clean.
 
 (* non-vacuity: commands while disconnected, then end of input *)
 Example C20_example :
